@@ -17,6 +17,7 @@ mark (`setVal_hoists`); `RTwf` adds canonical (sorted) mark sets and distinct ke
 import CtyModel.Lemmas.MarksOps
 import CtyModel.Lemmas.MarksPaths
 import CtyModel.Lemmas.MarksPrologue
+import CtyModel.Lemmas.MarksRebuild
 namespace CtyModel
 namespace C04
 open Value
@@ -78,13 +79,31 @@ theorem prologue_table_complete : ∀ op ∈ Op.all, op.sourceRow = some op.shap
     simp [Op.sourceRow, Generated.opPrologues, Op.shape, Op.Shape.entry]
 
 /-- … and the model is that prologue around the unmarked core of the method. -/
-theorem run_is_prologue (op : Op) (a b : Value) :
+theorem run_is_prologue (op : Op) (hop : op ∈ Op.all) (a b : Value) :
     (op.shape.arg.isSome → op.run [a, b] =
       Op.prologue2 op.shape.recvDeep (op.shape.arg.map (·.2)).get! (op.core2) a b) ∧
     (op.shape.arg.isNone → op.run [a] = Op.prologue1 op.shape.recvDeep op.core1 a) := by
-  cases op <;> first
+  simp only [Op.all, List.mem_cons, List.not_mem_nil, or_false] at hop
+  rcases hop with rfl | rfl | rfl | rfl | rfl | rfl | rfl | rfl | rfl | rfl | rfl | rfl | rfl | rfl | rfl | rfl | rfl | rfl <;>
+    first
     | exact ⟨fun _ => rfl, fun h => by simp [Op.shape] at h⟩
     | exact ⟨fun h => by simp [Op.shape] at h, fun _ => rfl⟩
+
+/-- `NotEqual`, `LessThanOrEqualTo` and `GreaterThanOrEqualTo` have no prologue of
+their own in the source (they call the methods above), and the model composes
+them the same way; every theorem of this section covers them (`Op.notEqual`,
+`Op.le`, `Op.ge`), with marks kept at every depth because `Equals` is part of each. -/
+theorem composites_have_no_prologue :
+    ∀ op ∈ [Op.notEqual, Op.le, Op.ge], (op.sourceRow.map (·.form)) = some "none" := by
+  intro op h
+  simp only [List.mem_cons, List.not_mem_nil, or_false] at h
+  rcases h with rfl | rfl | rfl <;> simp [Op.sourceRow, Generated.opPrologues, Op.shape]
+
+theorem composites_are_compositions (a b : Value) :
+    Op.notEqual.run [a, b] = (do let e ← Value.equals a b; Value.not e) ∧
+    Op.le.run [a, b] = (do let l ← Value.lessThan a b; let e ← Value.equals a b; Value.or l e) ∧
+    Op.ge.run [a, b] = (do let g ← Value.greaterThan a b; let e ← Value.equals a b; Value.or g e) :=
+  ⟨rfl, rfl, rfl⟩
 
 /-! ## Constructors -/
 
@@ -129,6 +148,26 @@ every depth included. -/
 theorem unmarkDeepWithPaths_markWithPaths (v : Value) (hwf : RTwf v.v) :
     v.unmarkDeepWithPaths.1.markWithPaths v.unmarkDeepWithPaths.2 = .ok v :=
   markWithPaths_unmarkDeepWithPaths v hwf
+
+/-- `UnmarkDeepWithPaths` returns the value `UnmarkDeep` returns, and its records
+carry, together, exactly the marks `UnmarkDeep` returns.  (`keysAligned`: every map /
+object payload has one key per member, as every payload the wire carries has.) -/
+theorem unmarkDeepWithPaths_agrees_unmarkDeep (v : Value) (hs : v.v.setsClean = true) (hk : keysAligned v.v = true) :
+    v.unmarkDeepWithPaths.1 = v.unmarkDeepPair.1 ∧
+    ∀ m, (∃ e ∈ v.unmarkDeepWithPaths.2, m ∈ e.marks) ↔ m ∈ v.unmarkDeepPair.2 :=
+  unmarkDeepWithPaths_agrees v hs hk
+
+/-- **What "the same unmarked result" means for sets.** `UnmarkDeep` (as every
+`transform`) REBUILDS each set it passes: the members return to their buckets in
+iteration order, not in the order they were once added (`unmarkDeepR`,
+diffed against /repo on sets holding crc32-tied members).  The rebuilt value and the
+plainly stripped one (`unmarkDeep`, which the theorems of this file are stated
+with) have the same buckets with the same members at every depth (`SameSets`) —
+`RawEquals`, `Equals` and every accessor read sets through `Values()` and cannot
+tell them apart.  The property promises equality of values, not of storage order. -/
+theorem unmarkDeep_rebuild_same_members (bytesLess : Ty → Payload → Payload → Bool) (v : Value) :
+    SameSets v.unmarkDeep.v (v.unmarkDeepRPair bytesLess).1.v ∧ (v.unmarkDeepRPair bytesLess).2 = v.marksDeep :=
+  ⟨sameSets_unmarkDeepR bytesLess v.v v.ty, rfl⟩
 
 /-- `UnmarkDeep` leaves no mark behind (at any depth) and reports none that was not there. -/
 theorem unmarkDeep_clean (v : Value) : v.unmarkDeepPair.1.containsMarked = false ∧ v.unmarkDeepPair.1.marksDeep = [] :=
@@ -188,10 +227,45 @@ theorem call_noninterference (spec : Fn.Spec) (tf : Fn.TypeFn) (impl : Fn.ImplFn
   rw [Fn.call_eq, Fn.call_eq]
   exact Fn.callTable_noAllow spec tf impl args hs hw
 
+/-- **Non-interference of calls, any specification.** For functions that do declare
+`AllowMarked` parameters the marked arguments reach the callbacks, so the
+statement is relative to them: if `Type`, `Impl` and `RefineResult` do not look
+at marks (`TypeBlind`, `ImplBlind`, `RefineBlind`: same outcome class and, after
+`UnmarkDeep`, the same result on unmarked arguments), then neither does the call —
+same outcome, and the unmarked result is the result on the unmarked arguments. -/
+theorem call_noninterference_allowMarked (spec : Fn.Spec) (tf : Fn.TypeFn) (impl : Fn.ImplFn) (args : List Value)
+    (htf : Fn.TypeBlind tf) (himpl : Fn.ImplBlind impl) (hr : Fn.RefineBlind spec)
+    (hw : ∀ v ∈ args, v.v.markerWF = true) :
+    Fn.Out.map unmarkDeep (Fn.call spec tf impl args).1 = (Fn.call spec tf impl (args.map unmarkDeep)).1 := by
+  rw [Fn.call_eq, Fn.call_eq]
+  exact Fn.callTable_blind spec tf impl args htf himpl hr hw
+
 /-- … whose marks are the result's own plus every mark anywhere in any argument. -/
 theorem call_noninterference_marks (args : List Value) (r : Value) (m : String) :
     m ∈ (Fn.withMarkSets r (Fn.argMarkSets args)).marks ↔ m ∈ r.marks ∨ ∃ v ∈ args, m ∈ v.marksDeep := by
   rw [Fn.mem_marks_withMarkSets, Fn.mem_argMarkSets]
+
+/-- What the protocol does with the marks of `AllowMarked` arguments when it answers
+WITHOUT invoking `Impl` (an unknown or dynamically typed argument short-circuits
+the call): they are NOT put on the result — `resultMarks` collects only the marks
+of arguments whose parameter lacks `AllowMarked`.  This is intended behaviour,
+pinned by cty/function/function_test.go `TestFunctionCallWithUnknownVals`
+(`params-partial-marks`: only the mark of the non-`AllowMarked` argument is
+expected; also `refined-marked`, `marked-dynamic-not-refined`), and outside the
+property, which exempts arguments a function declares it handles itself.
+Here: `not(unknown bool marked "m")` with the parameter of `stdlib.NotFunc`
+(`AllowMarked` without `AllowUnknown`) is an unmarked unknown. -/
+theorem shortCircuit_drops_allowMarked_marks :
+    let spec : Fn.Spec := { params := [{ ty := .bool, allowMarked := true }] }
+    let arg : Value := ⟨.bool, .marked ["m"] (.unk .unref)⟩
+    Fn.call spec (fun _ => .ok .bool) (fun _ _ => .panic "not reached") [arg] =
+      (.ok ⟨.bool, .unk .unref⟩, [.type [arg]]) := by
+  rfl
+
+/-- … while the marks the protocol is responsible for are on that answer too (`call_marks`). -/
+theorem shortCircuit_keeps_unhandled_marks (spec : Fn.Spec) (tf : Fn.TypeFn) (impl : Fn.ImplFn) (args : List Value)
+    (r : Value) (h : (Fn.call spec tf impl args).1 = .ok r) (m : String) (hm : Fn.Unhandled spec args m) :
+    m ∈ r.marks := call_marks spec tf impl args r h m hm
 
 /-! ## Non-vacuity: the hypotheses are satisfiable by values that do carry marks,
 nested ones included, and the conclusions are about real results. -/
@@ -215,6 +289,13 @@ example : setVal [⟨.bool, .marked ["m1"] (.b true)⟩, ⟨.bool, .b false⟩] 
     .ok ⟨.set .bool, .marked ["m1"] (.sset [1, 2] [.b false, .b true])⟩ := by rfl
 example : Fn.Spec.noneAllowMarked { params := [{ ty := .string }], varParam := some { ty := .dyn } } :=
   ⟨by intro p hp; simp at hp; subst hp; rfl, by intro p hp; simp at hp; subst hp; rfl⟩
+example : Fn.TypeBlind (fun as => .ok ((as.headD Value.dynVal).ty)) := by
+  intro as; cases as <;> rfl
+example : Fn.ImplBlind (fun as _ => .ok (as.headD Value.dynVal)) := by
+  intro as t hw
+  cases as with
+  | nil => exact ⟨rfl, fun r h => by cases h; rfl⟩
+  | cons a as => exact ⟨rfl, fun r h => by cases h; exact hw a (by simp)⟩
 example : Fn.Unhandled { params := [{ ty := .dyn }] } [⟨.list .bool, .seq [.marked ["m2"] (.b true)]⟩] "m2" :=
   ⟨0, { ty := .dyn }, _, rfl, rfl, rfl, by decide⟩
 
